@@ -690,6 +690,35 @@ pub fn run_thr(case: &Case, dir: PathBuf) -> Outcome {
             }
         }
     }
+    // final point reads: after every thread has finished, point reads must agree with the scans
+    // (they are served by a different read path: first hit memtable -> sealed -> tables)
+    if let Ok(fs) = &final_store {
+        for (i, k) in sh.ks.iter().enumerate() {
+            let Some(k) = k else { continue };
+            for key in &sh.cfg.keys {
+                let inv = sh.stamp();
+                let got = k.get(key).map(|v| v.map(|x| x.to_vec()));
+                let ret = sh.stamp();
+                match got {
+                    Ok(v) => {
+                        if v.as_ref() != fs.get(&(i as u8, key.clone())) {
+                            sh.fail(
+                                "point-scan-disagree",
+                                format!(
+                                    "after all threads finished, get({}) on keyspace {i} returns {:?} but the scan shows {:?}",
+                                    crate::model::show(key),
+                                    v.as_ref().map(|x| crate::model::show(x)),
+                                    fs.get(&(i as u8, key.clone())).map(|x| crate::model::show(x))
+                                ),
+                            );
+                        }
+                        sh.push(0, inv, ret, LOp::Read(vec![((i as u8, key.clone()), v)]), format!("final get {}", crate::model::show(key)));
+                    }
+                    Err(e) => sh.fail("unexpected-error", format!("final get failed: {e:?}")),
+                }
+            }
+        }
+    }
     if violation.is_none() {
         violation = sh.violation.lock().unwrap().clone();
     }
